@@ -56,8 +56,13 @@ BIG_CONNECT = [(fam, ka, r, n, k) for fam in ("ET", "DT") for ka in (False, True
                for (r, n) in ((1500, 1099), (1200, 1300)) for k in ("refused", "unreach")]
 
 
+# overlapping public calls on one object in one event loop and again in a later one (a second asyncio.run)
+TWO_LOOPS = [(fam, tr, ka, f2) for fam, tr in (("ET", "udp"), ("ET", "tcp"), ("DT", "udp"), ("ES", "udp"))
+             for ka in (False, True) for f2 in ("ok", "drop_all")]
+
+
 def n_cases(tier):
-    return n_count_sweep() + N_COUNT_RANDOM[tier] + N_API[tier] + N_IDENT[tier] + len(BIG_CONNECT)
+    return n_count_sweep() + N_COUNT_RANDOM[tier] + N_API[tier] + N_IDENT[tier] + len(BIG_CONNECT) + len(TWO_LOOPS)
 
 
 API = {
@@ -77,6 +82,10 @@ def make_case(tier, seed, index):
     rnd = C.rng_for(seed, ID, index)
     i = index
     nb = n_count_sweep() + N_COUNT_RANDOM[tier] + N_API[tier] + N_IDENT[tier]
+    if i >= nb + len(BIG_CONNECT):
+        fam, tr, ka, f2 = TWO_LOOPS[i - nb - len(BIG_CONNECT)]
+        return {"kind": "twoloops", "family": fam, "transport": tr, "keep_alive": ka, "second": f2, "timeout": 0.5,
+                "retries": 1}
     if i >= nb:
         fam, ka, r, n, k = BIG_CONNECT[i - nb]
         cf = {"k": k, "d": 0.0}
@@ -175,6 +184,8 @@ def make_case(tier, seed, index):
 
 def simplify(case):
     out = []
+    if case["kind"] == "twoloops":
+        return out
     if case["kind"] == "api":
         for i, x in enumerate(case["idle"]):
             if x:
@@ -227,7 +238,37 @@ def _call(inv, name):
     return getattr(inv, name)
 
 
+def run_twoloops(case):
+    goodwe, gp, ge = C.goodwe_mods()
+    fam, tr = case["family"], case["transport"]
+    world = World(max_steps=200_000)
+    dev = _device(fam)
+    world.net.add_device(C.HOST, C.port_of(tr), dev)
+    inv = _make(goodwe, fam, tr, case["timeout"], case["retries"], case["keep_alive"])
+    recs = []
+    names = ["read_runtime_data", "read_sensor:vpv1", "read_device_info"]
+
+    async def burst(default):
+        world.net.begin_script([], default)
+        for name, rec in zip(names, await asyncio.gather(*[C.do_call(world, n, _call(inv, n)) for n in names])):
+            recs.append((name, rec))
+
+    status, _ = C.run_world(world, burst({"k": "ok"}))
+    if status == "ok":
+        status, _ = C.run_world(world, burst({"k": "ok"} if case["second"] == "ok" else {"k": "drop"}))
+    violations = []
+    if status != "ok":
+        violations.append(viol(f"C09:hang:{tr}", f"overlapping calls in two successive event loops: {status}"))
+    for name, rec in recs:
+        judge(violations, rec, name, tr, "api")
+    callback_violations(violations, world, tr)
+    sig = ("twoloops", fam, tr, case["keep_alive"], case["second"], tuple(r["outcome"] for _, r in recs))
+    return C.package(world, case, violations, sig, True, {"api_calls": len(recs), "two_loop_cases": 1})
+
+
 def run_case(case):
+    if case["kind"] == "twoloops":
+        return run_twoloops(case)
     if case["kind"] == "count":
         return run_count(case)
     if case["kind"] == "api":
